@@ -14,6 +14,13 @@ def chk(pid, text, note, design, technique='deductive verification: ast->VC gene
     }
 
 CHECKS = [
+    chk("C18", "Sequential contracts on the real CacheStore functions: an entry older than its source is never reported valid or "
+        "served, an entry that fails to unpickle is discarded and never propagated as an exception, load validates before "
+        "unpickling and never writes, store writes only a private temp file, completes it before the single rename into place, and "
+        "uses no other way of writing.",
+        "Trusted: givc, file-system primitives by assumed contract, os.stat as a function of the path (NO interference between "
+        "steps: concurrent schedules and crash points are not decided), rename atomicity. Version purge not yet under contract.",
+        "DESIGN.md section 4 C18"),
     chk("C19", "The library pattern is extracted from the real source, translated mechanically to an SMT regular expression with a "
         "symbolic library name and proved component-wise equal to the statement's language (regular-language lemmas, z3); "
         "resolve_from_ldd_output is under contract with loop invariants: normal return only when every request was resolved, "
